@@ -84,6 +84,8 @@ def run_demo(src_dir, agent_wt):
     lines = [re.sub(r'^\s*(ROOT|WT)=<[^>]*>\s*;\s*', '', l.strip()) for l in run if l.strip() and not l.strip().startswith('#')]
     cmd = ' && '.join(lines)
     cmd = cmd.replace(agent_wt, WT)
+    for placeholder in ('<repo>', '<REPO>', '<worktree>', '<WORKTREE>', '<WT>', '<ROOT>'):
+        cmd = cmd.replace(placeholder, WT)
     env = dict(os.environ, ROOT=WT, WT=WT, WORKTREE=WT)
     p = sh(['bash', '-c', cmd], cwd=work, timeout=900, env=env)
     return p.returncode, p.stdout[-1500:]
